@@ -524,6 +524,10 @@ func registerLibIntrinsics(p *Program) {
 		lt, eq := ex.strCompare(a, b)
 		return mkIte(eq, mkConst(64, 0), mkIte(lt, mkConst(64, ^uint64(0)), mkConst(64, 1)))
 	})
+	p.reg("internal/bytealg.CompareString", func(ex *Exec, fr *Frame, args []Value) Value {
+		lt, eq := ex.strCompare(strBytes(args[0]), strBytes(args[1]))
+		return mkIte(eq, mkConst(64, 0), mkIte(lt, mkConst(64, ^uint64(0)), mkConst(64, 1)))
+	})
 	p.reg("internal/bytealg.CountString", func(ex *Exec, fr *Frame, args []Value) Value {
 		n := mkConst(64, 0)
 		for _, b := range strBytes(args[0]) {
